@@ -12,8 +12,13 @@ from .tower import TowerSym
 UTILS_INV = "py_ecc.utils.prime_field_inv"
 
 
+INV_REG = {}
+
+
 def inv0_atom(poly: Poly, p):
-    return Poly.var(f"inv0({poly!r})", p)
+    name = f"inv0({poly!r})"
+    INV_REG[name] = poly
+    return Poly.var(name, p)
 
 
 def inv_summary(p):
@@ -282,6 +287,33 @@ def run_fqp(S: FieldSubject):
             out.append((f"__pow__({n})", ok, "" if ok else f"{val!r}"[:200], m.where))
         except Raised as ex:
             out.append((f"__pow__({n})", False, f"raises {ex.exc.clsname()}", m.where))
+    # a loop-free inv override (closed form) is decidable: a · a.inv() must be 1 in the quotient ring
+    import ast as _ast
+    m = it0.find_method(S.cls, "inv")
+    if m is not None and not any(isinstance(nn, (_ast.While, _ast.For)) for nn in _ast.walk(m.node)):
+        it = S.interp()
+        a, av = S.element(it, "a")
+        try:
+            r = it.call_func(m, [a], {})
+            val, red, okcls = S.read(r)
+            prod = av.mul(val)
+            atoms = sorted({v for c in prod.c for v in c.vars() if isinstance(v, str) and v.startswith("inv0(")})
+            ok = False
+            det = f"product a·inv(a) = {prod!r}"[:300]
+            if len(atoms) == 1 and atoms[0] in INV_REG:
+                V, den = atoms[0], INV_REG[atoms[0]]
+                ok = True
+                for j, c in enumerate(prod.c):
+                    cs = c.coeffs_in(V)
+                    lin = cs.get(1, Poly.const(0, p))
+                    rest = {k: v for k, v in cs.items() if k != 1 and not v.is_zero()}
+                    want = Poly(den.t, p) if j == 0 else Poly.const(0, p)
+                    if rest or not (Poly(lin.t, p) - want).is_zero():
+                        ok = False
+                det = "" if ok else f"a·inv(a) is not 1: coefficients {prod!r}"[:300]
+            out.append(("inv() closed form: a·a.inv() = 1", ok and red and okcls, det, m.where))
+        except Raised as ex:
+            out.append(("inv() closed form: a·a.inv() = 1", False, f"raises {ex.exc.clsname()}", m.where))
     # equality
     m = it0.find_method(S.cls, "__eq__")
 
